@@ -56,6 +56,11 @@ Definition injected (p : pastR) (e : nat) : R :=
 Definition resp_delta (Q dt : R) (j : nat) : R := match j with O => Q / dt | S _ => 0 end.
 Definition resp_exp (k dt tau : R) (j : nat) : R := k * Rexp (- (INR j * dt) / tau).
 
+Lemma isum_zero l : isum (fun _ => 0) l = 0.
+Proof. induction l as [|y l IH]; cbn [isum]; [reflexivity|]. rewrite IH. ring. Qed.
+Lemma resp_delta_tail Q dt l : isum (fun j => resp_delta Q dt (S j)) l = 0.
+Proof. rewrite (isum_ext _ (fun _ => 0)) by reflexivity. apply isum_zero. Qed.
+
 (* ------------------------------------------------------------------ the scalar recurrence *)
 Lemma resp_exp_S k dt tau j : resp_exp k dt tau (S j) = Rexp (- dt / tau) * resp_exp k dt tau j.
 Proof.
@@ -95,6 +100,16 @@ Qed.
 
 Section Closed.
 Variable c : cfgR.
+(* length side conditions: list (T RN) and list R are the same type, make it syntactically so for lia *)
+Ltac lens :=
+  repeat match goal with
+  | Hp : Forall (entry_ok RN c) ?p |- _ =>
+      lazymatch goal with
+      | _ : length (cur_val RN c p) = _ |- _ => fail
+      | _ => pose proof (cur_val_length RN c p Hp); pose proof (neg_val_length RN c p Hp)
+      end
+  end;
+  change (T RN) with R in *; rewrite ?map_length; lia.
 Notation n := (nel (cshape RN c)).
 
 (* single exponential: I = sum over past inputs of  Q/tau * exp(-age/tau) *)
@@ -105,9 +120,8 @@ Proof.
   induction Hp as [|(xs, inj) p (Hx & Hi) Hp IH]; cbn [cur_val train map].
   - apply nth_zrow.
   - rewrite Ek. unfold singleexp_val. cbn [fst snd] in *.
-    rewrite (nth_zipw _ _ _ e 0 0 0).
-    2: { rewrite ?(cur_val_length RN c p Hp). idtac. lia. }
-    rewrite IH. rn_simpl. apply sexp_step_closed.
+    rewrite (nth_zipw _ _ _ e 0 0 0) by lens.
+    change (T RN) with R in *. rewrite IH. rn_simpl. apply sexp_step_closed.
 Qed.
 
 (* double exponential: I = sum over past inputs of  Q/(tau_d - tau_r) * (exp(-age/tau_d) - exp(-age/tau_r)) *)
@@ -118,8 +132,8 @@ Proof.
   induction Hp as [|(xs, inj) p (Hx & Hi) Hp IH]; cbn [cur_val train map].
   - apply nth_zrow.
   - rewrite Ek. unfold doubleexp_pos, dexp_k. cbn [fst snd] in *.
-    rewrite (nth_zipw _ _ _ e 0 0 0) by (rewrite ?(cur_val_length RN c p Hp); lia).
-    rewrite IH. rn_simpl. apply sexp_step_closed.
+    rewrite (nth_zipw _ _ _ e 0 0 0) by lens.
+    change (T RN) with R in *. rewrite IH. rn_simpl. apply sexp_step_closed.
 Qed.
 Lemma neg_closed_form (p : pastR) e : ckind RN c = KDoubleExp -> Forall (entry_ok RN c) p -> (e < n)%nat ->
   nth e (neg_val RN c p) 0 = isum (resp_exp (cQ RN c / (ctau RN c - ctr RN c)) (cdt RN c) (ctr RN c)) (train p e).
@@ -128,8 +142,8 @@ Proof.
   induction Hp as [|(xs, inj) p (Hx & Hi) Hp IH]; cbn [neg_val train map].
   - apply nth_zrow.
   - rewrite Ek. unfold doubleexp_neg, dexp_k. cbn [fst snd] in *.
-    rewrite (nth_zipw _ _ _ e 0 0 0) by (rewrite ?(neg_val_length RN c p Hp); lia).
-    rewrite IH. rn_simpl. apply sexp_step_closed.
+    rewrite (nth_zipw _ _ _ e 0 0 0) by lens.
+    change (T RN) with R in *. rewrite IH. rn_simpl. apply sexp_step_closed.
 Qed.
 
 Definition resp_dexp (Q dt td tr : R) (j : nat) : R :=
@@ -139,8 +153,9 @@ Theorem double_exp_closed_form (p : pastR) e : ckind RN c = KDoubleExp -> Forall
   nth e (cur_out RN c p) 0 = isum (resp_dexp (cQ RN c) (cdt RN c) (ctau RN c) (ctr RN c)) (train p e).
 Proof.
   intros Ek Hp He. unfold cur_out. rewrite Ek.
-  rewrite (nth_zipw _ _ _ e 0 0 0) by (rewrite ?(cur_val_length RN c p Hp), ?(neg_val_length RN c p Hp); lia).
-  rewrite (pos_closed_form p e Ek Hp He), (neg_closed_form p e Ek Hp He). rn_simpl.
+  rewrite (nth_zipw _ _ _ e 0 0 0) by lens.
+  pose proof (pos_closed_form p e Ek Hp He) as H1. pose proof (neg_closed_form p e Ek Hp He) as H2.
+  change (T RN) with R in *. rewrite H1, H2. rn_simpl.
   rewrite <- isum_minus. apply isum_ext. intros j. unfold resp_exp, resp_dexp. ring.
 Qed.
 
@@ -154,13 +169,9 @@ Proof.
   - rewrite (nth_indep _ 0 (delta_to_current RN c 0)), map_nth, nth_zrow.
     + unfold delta_to_current. rn_simpl. ring.
     + rewrite map_length. apply Nat.lt_le_trans with (1 := He). unfold zrow. rewrite repeat_length. lia.
-  - cbn [fst] in *. rewrite (nth_indep _ 0 (delta_to_current RN c (boolify RN 0))) by (rewrite !map_length; lia).
-    rewrite map_nth, map_nth. unfold delta_to_current, resp_delta. rn_simpl.
-    assert (Z : forall l, isum (fun j => match S j with O => cQ RN c / cdt RN c | S _ => 0 end) l = 0).
-    { induction l as [|y l IHl]; cbn [isum]; [reflexivity|].
-      rewrite (isum_ext _ (fun j => match S j with O => cQ RN c / cdt RN c | S _ => 0 end)) by (intros; reflexivity).
-      rewrite IHl. ring. }
-    rewrite Z. ring.
+  - cbn [fst] in *. rewrite (nth_indep _ 0 (delta_to_current RN c (boolify RN 0))) by lens.
+    rewrite map_nth, map_nth. unfold delta_to_current. rn_simpl.
+    rewrite resp_delta_tail. unfold resp_delta. ring.
 Qed.
 
 (* delta plus: the pulse response plus the current injected in the present step *)
@@ -169,17 +180,13 @@ Theorem deltaplus_closed_form (p : pastR) e : ckind RN c = KDeltaPlus -> Forall 
 Proof.
   intros Ek Hp He. unfold cur_out. rewrite Ek.
   destruct Hp as [|(xs, inj) p (Hx & Hi) Hp]; cbn [cur_val train map isum injected].
-  - rewrite nth_zrow. ring.
+  - rewrite nth_zrow. rn_simpl. lra.
   - rewrite Ek. unfold deltaplus_val. cbn [fst snd] in *. rn_simpl.
     rewrite (nth_fold_zipw e inj _ n Hi) by (rewrite ?map_length; auto).
     rewrite fold_left_Rplus_acc.
-    rewrite (nth_indep _ 0 ((fun x => 0 + x * (cQ RN c / cdt RN c)) 0)) by (rewrite map_length; lia).
-    rewrite map_nth. unfold resp_delta.
-    assert (Z : forall l, isum (fun j => match S j with O => cQ RN c / cdt RN c | S _ => 0 end) l = 0).
-    { induction l as [|y l IHl]; cbn [isum]; [reflexivity|].
-      rewrite (isum_ext _ (fun j => match S j with O => cQ RN c / cdt RN c | S _ => 0 end)) by (intros; reflexivity).
-      rewrite IHl. ring. }
-    rewrite Z. ring.
+    rewrite (nth_indep _ 0 ((fun x => 0 + x * (cQ RN c / cdt RN c)) 0)) by lens.
+    rewrite (map_nth (fun x : R => 0 + x * (cQ RN c / cdt RN c)) xs 0 e).
+    rewrite resp_delta_tail. unfold resp_delta. ring.
 Qed.
 
 End Closed.
